@@ -125,13 +125,16 @@ impl ReverseProxyListener {
         debug!("{}: recv from {:?} length: {}", self.name, source, size);
 
         if let Some(tx) = self.sessions.get(&source).await {
-            tx.send(buf).await.context("send")?;
+            // never wait for one session's consumer while serving all clients of the listener
+            if tx.try_send(buf).is_err() {
+                debug!("{}: session queue full or closed, dropping datagram from {:?}", self.name, source);
+            }
         } else {
             let (tx, rx) = channel(100);
             let io = setup_udp_session(self.target.clone(), self.bind, source, rx, false)
                 .context("setup session")?;
             // the datagram that opens the session is payload too
-            tx.send(buf).await.context("send")?;
+            tx.try_send(buf).map_err(|_| easy_error::err_msg("send"))?;
             self.sessions.insert(source, tx).await;
             let ctx = state
                 .contexts
